@@ -116,9 +116,11 @@ def run_case(case):
                                 env.get_neighbours(moving, radius=r, incl_center=incl, ret_type=ret, mode=mode)
                             moving.x, moving.y, moving.z = centre
                         r_arg = np.int64(r) if rname in ("np-tuple", "pos-np") else r
+                        # the flag as the flags of other libraries arrive: a numpy boolean, the integers 1 / 0
+                        incl_arg = np.bool_(incl) if rname in ("np-tuple", "pos-np") else (int(incl) if rname == "pos" else incl)
                         if entry == "specific":
                             fn = env.get_moore_neighbours if mode == "moore" else env.get_neumann_neighbours
-                            got = fn(rep, r_arg, incl, ret)
+                            got = fn(rep, r_arg, incl_arg, ret)
                         elif entry in ("kw-minimal", "kw-one"):
                             # other call conventions: only the arguments that differ from the documented defaults, by keyword
                             # (kw-one: the radius is always spelt out, and comes last)
@@ -132,7 +134,7 @@ def run_case(case):
                                 kw["radius"] = r
                             got = fn(rep, **kw)
                         else:
-                            got = env.get_neighbours(rep, radius=r_arg, incl_center=incl, ret_type=ret, mode=mode)
+                            got = env.get_neighbours(rep, radius=r_arg, incl_center=incl_arg, ret_type=ret, mode=mode)
                         if not isinstance(got, list) or [tuple(g) if ret is tuple else g for g in got] != exp:
                             clause = f"{mode}-{'ids' if ret is int else 'tuples'}"
                             raise Violation(clause, f"shape={kind}{(w, h, d)} centre={centre} given as {rname} r={r} incl={incl} "
